@@ -1,8 +1,9 @@
 (* C16 — closing one end of a bridged TCP connection closes the other.
    Statements only.  Safety form: time bounds are outside the model (PARTIAL). *)
-From Coq Require Import List Bool.
-From IP Require Import TcpBridge.Conn Proofs.BridgeProofs.
+From Coq Require Import String List Bool Arith.
+From IP Require Import Gen.SrcFacts_TcpBridge TcpBridge.Conn Proofs.BridgeProofs TcpBridge.BridgeSys Proofs.BridgeSysProofs.
 Import ListNotations.
+Local Open Scope nat_scope.
 
 (* For every order of peer closes and copy-loop/handler steps: once either peer has
    closed, every state in which the bridge can do nothing more has both of its
@@ -19,6 +20,61 @@ Theorem C16_sharp_without_close : exists s, lrun false life_init [PeerACloses; C
   quiescent false s = true /\ b_open s = true /\ handler_done s = false.
 Proof. eexists. split; [reflexivity|]. repeat split; reflexivity. Qed.
 Print Assumptions C16_sharp_without_close.
+
+(* ------------------------------------------------------------------------------------------
+   The two bridge halves composed (TcpBridge/BridgeSys.v): TCP client <-> frontend <=websocket=> backend <-> TCP
+   server, each half with its dial phase.  Theorems over every run of the composed system.
+   ------------------------------------------------------------------------------------------ *)
+
+(* what the models take from the source, regenerated on every run: in both halves each copy goroutine closes its
+   destination when its source ends; the backend handler closes the websocket on every return after the upgrade (also
+   when its dial fails) and the TCP connection after a successful dial; and nowhere in the bridge is a deadline, a read
+   limit or a socket option set on a bridged connection - the models have no step that ends a connection by itself *)
+Theorem C16_source_bridge :
+  bridgeBackendCopyLoops = ["defer wg.Done(); io.Copy(backendConn, frontendConn); backendConn.Close()"; "defer wg.Done(); io.Copy(frontendConn, backendConn); frontendConn.Close()"]%string /\
+  bridgeFrontendCopyLoops = ["defer wg.Done(); io.Copy(backendConn, conn); backendConn.Close()"; "defer wg.Done(); io.Copy(conn, backendConn); conn.Close()"]%string /\
+  bridgeBackendDefers = ["cancel()"; "wsConn.Close()"; "backendConn.Close()"]%string /\
+  bridgeLimitCalls = [].
+Proof. repeat split; reflexivity. Qed.
+Print Assumptions C16_source_bridge.
+
+(* closing one end closes the other, end to end: once the client or the server has closed, or either dial has failed,
+   every state of the composed system in which the bridge can take no further step of its own has all four
+   connection ends closed and both handlers returned - for every interleaving of the two halves *)
+Theorem C16_system_close_propagates : forall es s, srun sys_init es = Some s -> triggered s = true -> squiescent s = true -> all_closed s = true.
+Proof. exact sys_close_propagates. Qed.
+Print Assumptions C16_system_close_propagates.
+
+(* ... such a state is reached: the bridge's own steps are bounded (at most ten for one bridged connection, whatever
+   the peers do), and until everything is closed one of them is enabled *)
+Theorem C16_bounded_progress :
+  (forall es s, srun sys_init es = Some s -> own_count es + work s <= 10) /\
+  (forall es s, srun sys_init es = Some s -> triggered s = true -> all_closed s = false -> squiescent s = false).
+Proof. split; [exact own_steps_bounded|exact progress_after_trigger]. Qed.
+Print Assumptions C16_bounded_progress.
+
+(* and never before: while neither peer has closed and no dial has failed, both running halves have both connections
+   open and both copy loops running - the bridge itself never ends a connection *)
+Theorem C16_no_spurious_close : forall es s b, srun sys_init es = Some s -> triggered s = false -> ph (fh s) = HRun -> bh s = Some b -> ph b = HRun ->
+  running_open (lf (fh s)) /\ running_open (lf b).
+Proof. exact no_spurious_close. Qed.
+Print Assumptions C16_no_spurious_close.
+
+(* non-vacuity: the client closes after both dials; the server is unreachable; the frontend cannot reach the backend *)
+Example C16_system_examples :
+  match srun sys_init [EFDialOk; EBDialOk; EClientCloses; EF CopyABEnds; ELinkB; EB CopyBAEnds; EB CopyABEnds; EF CopyBAEnds; ELinkF; EB HandlerReturns; EF HandlerReturns] with
+  | Some s => squiescent s = true /\ all_closed s = true /\ triggered s = true | None => False end /\
+  match srun sys_init [EFDialOk; EBDialFail; ELinkF; EF CopyBAEnds; EF CopyABEnds; EF HandlerReturns] with
+  | Some s => squiescent s = true /\ all_closed s = true | None => False end /\
+  match srun sys_init [EFDialFail] with Some s => squiescent s = true /\ all_closed s = true | None => False end /\
+  match srun sys_init [EFDialOk; EBDialOk] with Some s => squiescent s = true /\ all_closed s = false /\ triggered s = false | None => False end.
+Proof. vm_compute. repeat split; reflexivity. Qed.
+
+(* sharpness: a backend handler that forgets the websocket when its dial fails leaves the client connected for ever
+   (the model of that handler: EBDialFail without the close is no step at all, the system is stuck with the frontend open) *)
+Example C16_sharp_dial_failure_needs_close :
+  match srun sys_init [EFDialOk] with Some s => squiescent s = false /\ all_closed s = false | None => False end.
+Proof. vm_compute. split; reflexivity. Qed.
 
 Example C16_example : exists s, lrun true life_init [PeerBCloses; CopyBAEnds; CopyABEnds; HandlerReturns] = Some s /\ quiescent true s = true /\ a_open s = false.
 Proof. eexists. split; [reflexivity|]. split; reflexivity. Qed.
